@@ -6,22 +6,38 @@
 (* produces) for replay into the real code.                                 *)
 EXTENDS Bitswap, TLC, Json
 
-CONSTANTS Sizes, MaxQ, CB, CM, CO, CW
+CONSTANTS Sizes, MaxQ, CB, CM, CO, CW,
+          Presences,            \* subset of {"none", "under", "over"}: the presence message of the response
+          SendOverLimitPresence \* FALSE: an over-limit presence message is skipped; TRUE: negative model
 
 C == [B |-> CB, M |-> CM, O |-> CO, W |-> CW]
 
-VARIABLES blocks, S
-vars == <<blocks, S>>
+VARIABLES blocks, S, pres, pdone
+vars == <<blocks, S, pres, pdone>>
 
 AllSizeSeqs == UNION {[1..n -> Sizes] : n \in 0..MaxQ}
 Mk(f) == [i \in DOMAIN f |-> [id |-> i, size |-> f[i]]]
 
 Init == /\ blocks \in {Mk(f) : f \in AllSizeSeqs}
         /\ S = SendInit(blocks)
+        /\ pres \in Presences
+        /\ pdone = FALSE
 
-Next == /\ ~S.done
-        /\ S' = ImplSendStep(C, S)
-        /\ UNCHANGED blocks
+\* send_response first sends the presences of the response in a message of their own:
+\* within the limit it is written (no block in it), over the limit it is skipped with a
+\* warning; the negative model writes it anyway, the substream refuses it and send_response
+\* returns the error before any block is sent
+PresenceStep ==
+  /\ ~pdone /\ pdone' = TRUE
+  /\ S' = CASE pres = "none" -> S
+             [] pres = "under" -> [S EXCEPT !.out = Append(@, [ids |-> <<>>, len |-> C.M])]
+             [] pres = "over" -> IF SendOverLimitPresence THEN [S EXCEPT !.done = TRUE] ELSE S
+  /\ UNCHANGED <<blocks, pres>>
+
+Next == \/ PresenceStep
+        \/ /\ pdone /\ ~S.done
+           /\ S' = ImplSendStep(C, S)
+           /\ UNCHANGED <<blocks, pres, pdone>>
 
 Spec == Init /\ [][Next]_vars /\ WF_vars(Next)
 
@@ -35,11 +51,11 @@ ExtractOK ==
   [][LET r == ImplExtract(S.q, C.B) IN
        PropExtract(C.B, S.q, [some |-> r.some, batch |-> Ids(r.batch), rest |-> Ids(r.rest)])]_vars
 \* the loop terminates: the queue shrinks with every step, and the response gets done
-Progress == [][S'.done \/ Len(S'.q) < Len(S.q)]_vars
+Progress == [][S'.done \/ Len(S'.q) < Len(S.q) \/ pdone' # pdone]_vars
 Termination == <>S.done
 
 \* generation: one behaviour per response set, emitted when its handling completes
-Emit == (S'.done /\ ~S.done) =>
+Emit == (S'.done /\ ~S.done /\ pres = "none") =>
           PrintT(<<"B", ToJson([sizes |-> [i \in 1..Len(blocks) |-> blocks[i].size],
                                  B |-> CB, M |-> CM,
                                  batches |-> [i \in 1..Len(S'.out) |-> S'.out[i].ids],
